@@ -153,6 +153,27 @@ def r_fmt_agree(ctx: RuleCtx, col: Collector):
             col.bad(where_of(f), f.rel, line_of(header[0]), f"header_type=\"{header[1]}\" vs struct code",
                     f"block lengths are packed with struct code(s) {sorted(codes)} but the file declares header_type "
                     f"{header[1]} (code '{want}'): readers mis-parse every block header")
+    # block-length header: the number packed is the byte count of the *raw* (un-encoded) data block
+    for pk in packs:
+        if len(pk.args) < 2:
+            continue
+        val = pk.args[1]
+        names = {x.id for x in ast.walk(val) if isinstance(x, ast.Name)}
+        enc_names = set()
+        for nm in names:
+            for d in du.defs.get(nm, []):
+                if any(isinstance(x, ast.Call) and norm(x.func).endswith("b64encode") for x in ast.walk(d)):
+                    enc_names.add(nm)
+        construct = f"block length header {stmt_key(pk)}"
+        if enc_names:
+            col.bad(where_of(f), f.rel, line_of(pk), construct,
+                    f"the length written in front of a binary block is computed from '{sorted(enc_names)[0]}', the base64 "
+                    f"*text*: the VTK XML format stores the byte count of the raw data (4/3 smaller), so a reader that honours "
+                    f"the header decodes past the block")
+        elif any(k in norm(val) for k in (".nbytes", ".tobytes()", ".itemsize", "len(")):
+            col.ok(where_of(f), f.rel, line_of(pk), construct, f"raw byte count '{U(val)}'")
+        else:
+            raise AnalysisError(f"write_to_vti: cannot tell what the block length '{U(val)}' counts")
     # byte order
     tests = []
     for n in ast.walk(f.node):
